@@ -39,50 +39,7 @@ def _R():
     return NumpyFileReader
 
 
-class CatList:
-    """a Python list of arrays, abstracted to (number of items, their concatenation) - exact for the operations
-    read_chunk performs on temp_chunks: append, len, [0] of a singleton, np.concatenate, sum of sizes, pass to callee."""
-
-    def __init__(self, count, cat):
-        self.count, self.cat = count, cat
-
-    def getattr(self, ip, name, lineno):
-        if name == "append":
-            return _Append(self)
-        raise Unsupported("CatList.%s" % name)
-
-    def sym_len(self, ip):
-        return self.count
-
-    def getitem(self, ip, idx, lineno):
-        if conc(idx) == 0:
-            ip.ctx.check("%s:catlist.singleton@L%s" % (ip.ctx.fname, lineno), I(self.count) == 1, "safety", lineno,
-                         "temp_chunks[0] is used as the whole data only when the list has one item")
-            return self.cat
-        raise Unsupported("CatList index")
-
-
-class _Append:
-    def __init__(self, cl):
-        self.cl = cl
-
-    def sym_call(self, ip, args, kwargs, lineno):
-        a = args[0]
-        cl = self.cl
-        f, g, n0 = cl.cat.snapshot(), a.snapshot(), cl.cat.length
-        cl.cat = SArr.fresh(conc(I(n0) + I(a.length)), lambda j: Ite(I(j) < I(n0), f(j), g(I(j) - I(n0))))
-        cl.count = conc(I(cl.count) + 1)
-
-
-def as_catlist(x):
-    if isinstance(x, CatList):
-        return x
-    if isinstance(x, list):
-        cl = CatList(0, SArr.fresh(0, lambda j: 0))
-        for a in x:
-            _Append(cl).sym_call(None, [a], {}, None)
-        return cl
-    raise Unsupported("temp_chunks is %r" % (x,))
+from pyvc.loops import CatList, as_catlist
 
 
 class BufferType:
